@@ -59,6 +59,8 @@ def run(ctx):
     for i in range(7):
         cases.append({"kind": "httpfault", "seed": i, "nlookupd": 2, "fails": []})
     cases.append({"kind": "badident", "seed": 1, "nlookupd": 1, "fails": []})
+    for i in range(2 if ctx.quick else 6):
+        cases.append({"kind": "page", "seed": i, "nlookupd": 1 + i % 2, "fails": []})
     cases.append({"kind": "badident", "seed": 2, "nlookupd": 2, "fails": []})
     cases.append({"kind": "churnping", "seed": 1, "nlookupd": 1, "fails": []})
     cases.append({"kind": "halfopen", "seed": 1, "nlookupd": 1, "fails": []})
